@@ -80,12 +80,23 @@ def gen_case(g):
     for n, t in texts.items():
         kind = ws["files"][n]["kind"]
         d = "" if kind in ("program", "include") or tiny else rng.choice(dirs)
+        if kind == "header" and not tiny:
+            # the header lives next to some source of the workspace, not necessarily the one including it
+            d = rng.choice(dirs)
         if kind == "include" and not tiny and rng.random() < 0.25:
             # the fragment lives in another source directory than the file that INCLUDEs it by its
             # bare name (whether that resolves or not, it must not depend on how the index was built)
             d = rng.choice(dirs[1:])
         files[d + n] = t
-    names = sorted(files)
+    if not tiny:
+        # headers mostly sit next to a preprocessed source - not necessarily the one that includes them
+        ppdirs = sorted({n.rsplit("/", 1)[0] + "/" if "/" in n else "" for n in files if n.endswith(".F90")})
+        for n in [n for n in files if n.endswith(".h")]:
+            if ppdirs and rng.random() < 0.7:
+                t = files.pop(n)
+                files[rng.choice(ppdirs) + n.rsplit("/", 1)[-1]] = t
+    # the files a start-up indexes and a client would open as documents (headers are neither)
+    names = sorted(n for n in files if not n.endswith(".h"))
     nfiles = len(names)
     bringups = []
     if tiny and nfiles <= 3:
@@ -135,7 +146,8 @@ def schedule_for(case, b):
         pool = {"assign": b["assign"]}
         order = b["order"]
     else:
-        tree = {}
+        # headers are part of the directory from the start: they are no documents a client opens
+        tree = {paths[n]: files[n] for n in names if n.endswith(".h")}
         ops += [gen.initialize(0), gen.initialized()]
         for n in b["perm"]:
             ops.append(gen.env_write(paths[n], files[n]))
@@ -146,7 +158,7 @@ def schedule_for(case, b):
     # identical tail: open everything (sorted), then the battery with a re-save round
     opened = set(b["perm"]) if b["kind"] == "open" else set()
     for n in names:
-        if n not in opened:
+        if n not in opened and not n.endswith(".h"):
             ops.append(gen.did_open(paths[n], files[n]))
     ops.append({"k": "obs", "what": "saved"})
     ops.append({"k": "battery", "spec": BATTERY})
